@@ -486,6 +486,10 @@ package server
 // length byte 0x20 and the client's session id echoed at offset 39.
 //@ func composeServerHello
 //@   requires len(sessionId) == 32
+//@   # C06: the key share starts with bytes 20..47 of the sealed session key (28 bytes: the rest of the ciphertext
+//@   # and the whole tag); only its last 4 bytes are random filler
+//@   atcall copy requires tailOfTheSealedKey: sameSlice(arg0.([]byte), keyExchange) && len(keyExchange) == 32 && len(arg1.([]byte)) == 28 && (forall k int :: 0 <= k && k < 28 ==> arg1.([]byte)[k] == encryptedSessionKeyWithTag[20 + k])
+//@   atcall CryptoRandRead requires onlyTheFiller: len(arg0.([]byte)) == 4 && aliases(arg0.([]byte), keyExchange, 28)
 //@   ensures size: len(ret0) == 122
 //@   ensures handshakeHeader: ret0[0] == 2 && ret0[1] == 0 && ret0[2] == 0 && ret0[3] == 118 && ret0[4] == 3 && ret0[5] == 3
 //@   ensures echoesSessionId: ret0[38] == 32 && (forall i int :: 0 <= i && i < 32 ==> ret0[39+i] == sessionId[i])
